@@ -16,6 +16,8 @@ type ModSet struct {
 	FreeVarsWritten map[*ssa.FreeVar]bool
 	Why             string
 	knownParams     map[*ssa.Function]bool // callees whose function-typed parameters are known closures at the call site
+	Preserves       []string // when Top comes only from contracts with a preserves clause
+	starOnly        bool
 	loopScan        bool // computing a loop's mod-set: objects allocated before the loop are not fresh
 }
 
@@ -158,25 +160,57 @@ func (x *Run) modInstr(ins ssa.Instruction, ms *ModSet, seen map[*ssa.Function]b
 			x.modWholeStruct(el, ms)
 		}
 	case *ssa.Call:
-		x.modCall(&i.Call, ms, seen, depth)
+		x.modCall(&i.Call, ms, seen, depth, i)
 	case *ssa.Defer:
-		x.modCall(&i.Call, ms, seen, depth)
+		x.modCall(&i.Call, ms, seen, depth, i)
 	case *ssa.MakeClosure:
-		// closure may be called later in this function (conservatively include its effects)
+		// effects of a closure count when it is called or deferred here, or handed to
+		// sync.Once.Do; closures that are only stored / registered do not run now
 		if fn, ok := i.Fn.(*ssa.Function); ok && !seen[fn] {
-			seen[fn] = true
-			x.modFunc(fn, ms, seen, depth+1)
+			runs := false
+			for _, r := range *i.Referrers() {
+				switch c := r.(type) {
+				case *ssa.Call:
+					if c.Call.Value == ssa.Value(i) {
+						runs = true
+					}
+					if f := c.Call.StaticCallee(); f != nil && f.String() == "(*sync.Once).Do" {
+						runs = true
+					}
+				case *ssa.Defer:
+					if c.Call.Value == ssa.Value(i) {
+						runs = true
+					}
+				case *ssa.Store, *ssa.Phi, *ssa.MakeInterface, *ssa.ChangeType:
+					if ms.loopScan {
+						runs = true // may be called through a variable inside the loop
+					}
+				}
+			}
+			if runs {
+				seen[fn] = true
+				x.modFunc(fn, ms, seen, depth+1)
+			}
 		}
 	}
 }
 
-func (x *Run) modCall(cc *ssa.CallCommon, ms *ModSet, seen map[*ssa.Function]bool, depth int) {
+func (x *Run) modCall(cc *ssa.CallCommon, ms *ModSet, seen map[*ssa.Function]bool, depth int, site any) {
 	if cc.IsInvoke() {
 		full := cc.Method.FullName()
+		if x.spec.getters[full] {
+			return
+		}
 		if con := x.spec.contractFor(full); con != nil {
 			for _, m := range con.Modifies {
 				if m == "*" {
+					if !ms.Top {
+						ms.Preserves = con.Preserves
+					} else {
+						ms.Preserves = intersectStr(ms.Preserves, con.Preserves)
+					}
 					ms.Top = true
+					ms.starOnly = true
 					ms.Why = "contract modifies * " + full
 				} else {
 					ms.Arrs[m] = true
@@ -192,8 +226,7 @@ func (x *Run) modCall(cc *ssa.CallCommon, ms *ModSet, seen map[*ssa.Function]boo
 			}
 		}
 		if declaredInFrp {
-			ms.Top = true
-			ms.Why = "invoke " + full
+			ms.setTop("invoke " + full)
 		}
 		return
 	}
@@ -203,6 +236,14 @@ func (x *Run) modCall(cc *ssa.CallCommon, ms *ModSet, seen map[*ssa.Function]boo
 			x.modMap(cc.Args[0].Type(), ms)
 		case "close":
 			ms.Arrs[x.chClosedArr(cc.Args[0].Type())] = true
+			if ld, ok := cc.Args[0].(*ssa.UnOp); ok {
+				if fa, ok := ld.X.(*ssa.FieldAddr); ok {
+					pt := fa.X.Type().Underlying().(*types.Pointer).Elem()
+					name := "ChClosed@" + fieldArrayName(pt, fa.Field)
+					x.arrSort(name, "(Array Int Bool)")
+					ms.Arrs[name] = true
+				}
+			}
 		}
 		return
 	}
@@ -213,17 +254,37 @@ func (x *Run) modCall(cc *ssa.CallCommon, ms *ModSet, seen map[*ssa.Function]boo
 		}
 	}
 	if fn == nil {
+		// a call through a func-typed field that has a specification function
+		if ld, ok := cc.Value.(*ssa.UnOp); ok {
+			if fa, ok := ld.X.(*ssa.FieldAddr); ok {
+				pt := fa.X.Type().Underlying().(*types.Pointer).Elem()
+				if sf := x.spec.fieldFns[fieldArrayName(pt, fa.Field)]; sf != nil {
+					if !seen[sf] {
+						seen[sf] = true
+						x.modFunc(sf, ms, seen, depth+1)
+					}
+					return
+				}
+			}
+		}
+		if ci, ok := site.(ssa.Instruction); ok {
+			if sf := x.spec.dynCallSpec(ci); sf != nil {
+				if !seen[sf] {
+					seen[sf] = true
+					x.modFunc(sf, ms, seen, depth+1)
+				}
+				return
+			}
+		}
 		// dynamic function value: unknown
 		if prm, isParamOrField := cc.Value.(*ssa.Parameter); isParamOrField {
 			if ms.knownParams[prm.Parent()] {
 				return
 			}
-			ms.Top = true
-			ms.Why = "dynamic call of parameter"
+			ms.setTop("dynamic call of parameter")
 			return
 		}
-		ms.Top = true
-		ms.Why = "dynamic call"
+		ms.setTop("dynamic call")
 		return
 	}
 	if seen[fn] {
@@ -252,9 +313,12 @@ func (x *Run) modCall(cc *ssa.CallCommon, ms *ModSet, seen map[*ssa.Function]boo
 		// their effects are included, and the callee's calls of those
 		// parameters are then not "unknown"
 		allKnown := true
-		for _, a := range cc.Args {
+		for ai, a := range cc.Args {
 			if _, isSig := types.Unalias(a.Type()).Underlying().(*types.Signature); !isSig {
 				continue
+			}
+			if !calleeCallsParam(fn, ai) {
+				continue // the callee only stores / forwards the function value
 			}
 			switch c := a.(type) {
 			case *ssa.MakeClosure:
@@ -292,4 +356,53 @@ func (x *Run) modCall(cc *ssa.CallCommon, ms *ModSet, seen map[*ssa.Function]boo
 			}
 		}
 	}
+}
+
+// calleeCallsParam: fn calls (or defers) its i-th parameter directly.
+func calleeCallsParam(fn *ssa.Function, i int) bool {
+	if i >= len(fn.Params) {
+		return true
+	}
+	p := fn.Params[i]
+	for _, r := range *p.Referrers() {
+		switch c := r.(type) {
+		case *ssa.Call:
+			if c.Call.Value == ssa.Value(p) {
+				return true
+			}
+			// forwarded to another function: conservatively "calls"
+			for _, a := range c.Call.Args {
+				if a == ssa.Value(p) {
+					return true
+				}
+			}
+		case *ssa.Defer:
+			return true
+		case *ssa.Go:
+			// runs concurrently: not an effect of this call (A-SEQ)
+		case *ssa.MakeClosure:
+			return true
+		}
+	}
+	return false
+}
+
+func intersectStr(a, b []string) []string {
+	var r []string
+	for _, x := range a {
+		for _, y := range b {
+			if x == y {
+				r = append(r, x)
+			}
+		}
+	}
+	return r
+}
+
+// setTop marks the set as "may modify anything" for a reason other than a
+// contract with a preserves clause.
+func (ms *ModSet) setTop(why string) {
+	ms.Top = true
+	ms.Preserves = nil
+	ms.Why = why
 }
